@@ -585,4 +585,199 @@ theorem tarjan_partition_aux (comps : List (List Nat)) (lk : List (Nat × Nat)) 
 
 end Run
 
+/-! ### the member → component map agrees with the component list -/
+
+theorem lookup_map_append (P : List Nat) (ci : Nat) (m : List (Nat × Nat)) (v : Nat) :
+    lookup (P.map (fun x => (x, ci)) ++ m) v = if v ∈ P then some ci else lookup m v := by
+  induction P with
+  | nil => simp
+  | cons a P ih =>
+    simp only [List.map_cons, List.cons_append, lookup_cons, ih, List.mem_cons]
+    by_cases h : a = v
+    · simp [h]
+    · have : ¬ v = a := fun e => h e.symm
+      simp [h, this]
+
+theorem compIndexOf_none_iff {comps : List (List Nat)} {v : Nat} : compIndexOf comps v = none ↔ v ∉ comps.flatten := by
+  constructor
+  · intro h hm
+    obtain ⟨i, hi⟩ := compIndexOf_some_of_mem hm
+    rw [h] at hi; cases hi
+  · intro h
+    cases hc : compIndexOf comps v with
+    | none => rfl
+    | some i =>
+      obtain ⟨A, hA, hv⟩ := compIndexOf_get hc
+      exact absurd (List.mem_flatten.2 ⟨A, List.mem_of_getElem? hA, hv⟩) h
+
+theorem compIndexOf_append_single (comps : List (List Nat)) (P : List Nat) (v : Nat) :
+    compIndexOf (comps ++ [P]) v =
+      match compIndexOf comps v with
+      | some i => some i
+      | none => if v ∈ P then some comps.length else none := by
+  induction comps with
+  | nil =>
+    simp only [List.nil_append, compIndexOf_cons, List.length_nil]
+    have : compIndexOf [] v = none := rfl
+    rw [this]; simp
+  | cons C rest ih =>
+    simp only [List.cons_append, compIndexOf_cons, ih]
+    by_cases h : v ∈ C
+    · simp [h]
+    · simp only [h, if_false]
+      cases hr : compIndexOf rest v with
+      | some i => simp
+      | none =>
+        by_cases hp : v ∈ P
+        · simp [hp]
+        · simp [hp]
+
+def N2C (st : TState) : Prop := ∀ v, lookup st.nodeToComp v = compIndexOf st.comps v
+
+theorem popUntil_fst_sub (id : Nat) (s : List Nat) (v : Nat) (h : v ∈ (popUntil id s).1) : v ∈ s := by
+  induction s with
+  | nil => simp [popUntil] at h
+  | cons t rest ih =>
+    unfold popUntil at h
+    by_cases e : t = id
+    · simp [e] at h; subst h; simp [e]
+    · simp only [e, if_false] at h
+      rcases List.mem_cons.1 h with rfl | h
+      · simp
+      · exact List.mem_cons_of_mem _ (ih h)
+
+theorem closeComponent_n2c (st : TState) (id : Nat) (hn : N2C st)
+    (hd : ∀ v, v ∈ st.stack → v ∉ st.comps.flatten) : N2C (closeComponent st id) := by
+  unfold closeComponent
+  split
+  · intro v
+    show lookup ((popUntil id st.stack).1.map (fun m => (m, st.comps.length)) ++ st.nodeToComp) v =
+      compIndexOf (st.comps ++ [(popUntil id st.stack).1]) v
+    rw [lookup_map_append, compIndexOf_append_single, ← hn v]
+    by_cases hp : v ∈ (popUntil id st.stack).1
+    · have : v ∉ st.comps.flatten := hd v (popUntil_fst_sub _ _ _ hp)
+      have h0 : compIndexOf st.comps v = none := compIndexOf_none_iff.2 this
+      rw [hn v, h0]
+    · simp only [hp, if_false]
+      cases lookup st.nodeToComp v <;> rfl
+  · exact hn
+
+section Run2
+variable {g : Digraph} {base start : Nat}
+
+theorem tstep_n2c (st : TState) (h : RunInv g base start st) (hn : N2C st) : N2C (tstep g st) := by
+  obtain ⟨index, disc, low, onStack, stack, dfs, comps, n2c⟩ := st
+  cases dfs with
+  | nil => exact hn
+  | cons cur rest =>
+    cases hc : cur.branches[cur.branchIdx]? with
+    | some nb =>
+      cases hd : lookup disc nb with
+      | none => simp only [tstep, hc, hd, tarjanPush]; exact hn
+      | some dn =>
+        simp only [tstep, hc, hd]
+        split
+        · split <;> exact hn
+        · exact hn
+    | none =>
+      simp only [tstep, hc]
+      exact closeComponent_n2c _ _ hn h.disj
+
+theorem tloop_run2 (fuel : Nat) (st st' : TState) (h : RunInv g base start st ∨ OutInv g st) (hn : N2C st)
+    (hl : tloop g fuel st = some st') : N2C st' := by
+  induction fuel generalizing st with
+  | zero =>
+    unfold tloop at hl
+    cases hd : st.dfs with
+    | nil => simp [hd] at hl; subst hl; exact hn
+    | cons c cs => simp [hd] at hl
+  | succ fuel ih =>
+    unfold tloop at hl
+    cases hd : st.dfs with
+    | nil => simp [hd] at hl; subst hl; exact hn
+    | cons c cs =>
+      simp [hd] at hl
+      rcases h with h | h
+      · exact ih _ (tstep_run st h) (tstep_n2c st h hn) hl
+      · rw [h.dfs_nil] at hd; cases hd
+
+end Run2
+
+theorem runInv_start {g : Digraph} {index : Nat} {disc low : List (Nat × Nat)} {onStack : List Nat}
+    {comps : List (List Nat)} {n2c : List (Nat × Nat)} {s : Nat} (hs : s ∈ g.nodes)
+    (h : OutInv g ⟨index, disc, low, onStack, [], [], comps, n2c⟩) (hd : lookup disc s = none) :
+    RunInv g index s (tarjanPush ⟨index, disc, low, onStack, [],
+        [{ id := s, branches := g.outAdj s, branchIdx := 0 }], comps, n2c⟩ s) := by
+  have hon := h.on_nil
+  have hdi := h.disc_iff
+  simp only at hon hdi
+  have hns : ¬ seen disc s := not_seen_of_none hd
+  have hnc : s ∉ comps.flatten := fun hm => hns ((hdi s).2 hm)
+  refine ⟨by simp [tarjanPush], by simp [tarjanPush, ids], by simp [tarjanPush], ?_, by simp [tarjanPush],
+    h.comps_nd, ?_, ?_, ?_, ?_, ?_, ?_, ?_, ?_, ?_, ?_, h.comps_ne⟩
+  · simp [tarjanPush, ids]
+  · intro v hv; simp [tarjanPush] at hv; subst hv; exact hnc
+  · intro v
+    show seen ((s, index) :: disc) v ↔ v ∈ [s] ∨ v ∈ comps.flatten
+    rw [seen_cons, hdi v]; simp; exact ⟨fun h => h.elim (fun e => Or.inl e.symm) Or.inr, fun h => h.elim (fun e => Or.inl e.symm) Or.inr⟩
+  · intro v
+    show v ∈ s :: onStack ↔ v ∈ [s]
+    simp; intro hv; exact absurd hv (hon v)
+  · intro v hv; simp [tarjanPush] at hv; subst hv
+    show index ≤ lookupD ((v, index) :: low) v
+    rw [lookupD_cons]; simp
+  · intro v hv; simp [tarjanPush] at hv; subst hv
+    show index ≤ lookupD ((v, index) :: disc) v
+    rw [lookupD_cons]; simp
+  · intro v hv; simp [tarjanPush] at hv; subst hv
+    show lookupD ((v, index) :: low) v ≤ lookupD ((v, index) :: disc) v
+    rw [lookupD_cons, lookupD_cons]; simp
+  · show lookupD ((s, index) :: disc) s = index
+    rw [lookupD_cons]; simp
+  · show index ≤ index + 1; omega
+  · intro c hc y hy; simp [tarjanPush] at hc; subst hc; exact (Digraph.mem_outAdj.1 hy).1
+  · intro v hv
+    have hv' : seen ((s, index) :: disc) v := hv
+    rw [seen_cons] at hv'
+    rcases hv' with rfl | hv'
+    · exact hs
+    · exact h.disc_nodes v hv'
+
+theorem tarjanFrom_n2c {g : Digraph} (st st' : TState) (s : Nat) (hs : s ∈ g.nodes) (h : OutInv g st) (hn : N2C st)
+    (hf : tarjanFrom g st s = some st') : N2C st' := by
+  unfold tarjanFrom at hf
+  cases hd : lookup st.disc s with
+  | some d => simp [hd] at hf; subst hf; exact hn
+  | none =>
+    simp only [hd] at hf
+    obtain ⟨index, disc, low, onStack, stack, dfs, comps, n2c⟩ := st
+    have hst : stack = [] := h.stack_nil
+    have hdf : dfs = [] := h.dfs_nil
+    subst hst; subst hdf
+    exact tloop_run2 _ _ _ (Or.inl (runInv_start hs h hd)) hn hf
+
+theorem tarjanNodes_n2c {g : Digraph} (l : List Nat) (hl : ∀ v, v ∈ l → v ∈ g.nodes) (st st' : TState)
+    (h : OutInv g st) (hn : N2C st) (hf : tarjanNodes g l st = some st') : N2C st' := by
+  induction l generalizing st with
+  | nil => simp [tarjanNodes] at hf; subst hf; exact hn
+  | cons a l ih =>
+    unfold tarjanNodes at hf
+    cases h1 : tarjanFrom g st a with
+    | none => simp [h1] at hf
+    | some st1 =>
+      simp only [h1] at hf
+      have ho1 := (tarjanFrom_out st st1 a (hl a (by simp)) h h1).1
+      exact ih (fun v hv => hl v (by simp [hv])) st1 ho1 (tarjanFrom_n2c st st1 a (hl a (by simp)) h hn h1) hf
+
+/-- the member → component index map Tarjan returns is `compIndexOf` of the component list it returns -/
+theorem tarjan_lookup {g : Digraph} (comps : List (List Nat)) (lk : List (Nat × Nat)) (h : tarjan g = some (comps, lk)) :
+    ∀ v, lookup lk v = compIndexOf comps v := by
+  unfold tarjan at h
+  cases hn : tarjanNodes g g.nodes TState.init with
+  | none => simp [hn] at h
+  | some st =>
+    simp [hn] at h
+    obtain ⟨rfl, rfl⟩ := h
+    exact tarjanNodes_n2c g.nodes (fun _ hv => hv) TState.init st outInv_init (fun v => rfl) hn
+
 end Dawgs.C15
